@@ -582,3 +582,95 @@ def compare(case, impl, model):
 
 def extra_evidence():
     return {'assumption_checks': {'H1_H2_checked_on_floats': STATS['h_checked'], 'distinct_floats': len(STATS['h_distinct'])}}
+
+
+# ---- extraction cross-check: the same cases evaluated inside Coq by vm_compute
+from tools import xenc
+COQ_IMPORTS = 'Base.XEnc Base.Str Model.Poly Model.Parse Model.Display'
+XCHECK_N = 200
+
+
+def _x_term(t):
+    c = t.fl()
+    vs = []
+    for _ in range(t.int()):
+        nm = t.cpstr()
+        vs.append('(%s, %s%%float)' % (xenc.cq_str(nm), xenc.coq_float(t.fl())))
+    return '{| t_coef := %s%%float; t_vars := [%s] |}' % (xenc.coq_float(c), '; '.join(vs))
+
+
+def _x_table(t):
+    if t.rest()[:1] != ['|']:
+        return '[]'
+    t.word()
+    ents = []
+    for _ in range(t.int()):
+        x = t.fl()
+        ents.append('(%s%%float, %s)' % (xenc.coq_float(x), xenc.cq_str(t.cpstr())))
+    return '[%s]' % '; '.join(ents)
+
+
+def _x_prec(t):
+    w = t.word()
+    return 'None' if w == '-' else '(Some %s)' % xenc.cq_nat(int(w))
+
+
+def coq_term(case):
+    t = xenc.Toks(case.line)
+    cmd = t.word()
+    if cmd not in ('fp', 'ps', 'rs', 'pi', 'ri', 'pt', 'rt', 'pm', 'rm'):
+        return None
+    # crc thinning below XCHECK_N so that every eligible case is taken, whatever its position in the stream
+    if not xenc.keep(case, 110 if cmd == 'fp' else 4 if case.cls.startswith('mal-') else 55):
+        return None
+    if cmd == 'fp':
+        p = t.int()
+        return 'enc_str (float_fmt_prec %s %s%%float)' % (xenc.cq_nat(p), xenc.coq_float(t.fl()))
+    back = None
+    if cmd in ('ps', 'rs'):
+        pr = _x_prec(t)
+        v = t.word()
+        cs = t.fvec()
+        tab = _x_table(t)
+        text = ('@fmt_simple float FNum float_fmt_prec (float_fmt_short %s) %s {| s_coefs := %s; s_var := %s |}'
+                % (tab, pr, xenc.cq_floats(cs), 'None' if v == '-' else 'Some %d%%N' % int(v)))
+        back = 's'
+    elif cmd in ('pi', 'ri'):
+        pr = _x_prec(t)
+        ts = [_x_term(t) for _ in range(t.int())]
+        tab = _x_table(t)
+        text = ('@fmt_inter float FNum float_fmt_prec (float_fmt_short %s) %s {| i_terms := [%s]; i_vars := [] |}'
+                % (tab, pr, '; '.join(ts)))
+        back = 'i'
+    elif cmd in ('pt', 'rt'):
+        tm = _x_term(t)
+        tab = _x_table(t)
+        text = '@fmt_term float FNum float_fmt_prec (float_fmt_short %s) %s' % (tab, tm)
+        back = 'i'
+    else:
+        text = '@to_polynomial_string float FNum float_fmt_prec %s' % xenc.cq_floats(t.fvec())
+        back = 's'
+    if cmd[0] == 'p':
+        return 'enc_str (%s)' % text
+    if back == 's':
+        return '(let text := %s in enc_str text ++ enc_res %s (@parse_simple float FNum uclass_tab text))' % (text, xenc.CQ_ENC_SPOLY)
+    return '(let text := %s in enc_str text ++ enc_res %s (@parse_inter float FNum uclass_tab text))' % (text, xenc.CQ_ENC_IPOLY)
+
+
+def encode_result(case, model_line):
+    t = model_line.split()
+    if t[0] != 'ok':
+        return [-99]
+    n = int(t[1])
+    out = [n] + [int(x) for x in t[2:2 + n]]
+    rest = t[2 + n:]
+    if not rest:
+        return out
+    assert rest[0] == ';', model_line
+    rest = rest[1:]
+    if rest[0] == 'err':
+        return out + [1, xenc.err_code(rest[1])]
+    if rest[0] == 'panic':
+        return out + [2]
+    cmd = case.line.split(' ', 1)[0]
+    return out + [0] + (xenc.enc_spoly_toks(rest) if cmd in ('rs', 'rm') else xenc.enc_ipoly_toks(rest))
